@@ -17,8 +17,9 @@ def gen_variant(rng, frame, force=None):
     labels = mg.gen_labels(rng, n, 'range')
     dfperm, dictperm = list(range(k)), list(range(k))
     if what in ('relabel', 'both'):
-        labels = mg.gen_labels(rng, n, rng.choice(['offset', 'perm', 'str', 'dup', 'dupall', 'concat', 'iloc',
-                                                   'setindex', 'negative', 'float']))
+        labels = mg.gen_labels(rng, n, rng.choice(['offset', 'perm', 'perm', 'str', 'dup', 'dupall', 'concat', 'iloc',
+                                                   'setindex', 'negative', 'float', 'multiindex', 'datetime', 'bool',
+                                                   'nanfloat', 'bigint', 'catindex', 'spread', 'spread']))
     if what in ('colperm', 'both'):
         rng.shuffle(dfperm)
         rng.shuffle(dictperm)
@@ -32,9 +33,13 @@ class C02(core.Check):
     driver = 'drv_c01'
     quick_cases = 400
     thorough_cases = 5000
-    rule = ("C01's abstract frames, each materialized once under the default RangeIndex / given column order and then "
+    rule = ("C01's abstract frames (all its dtype / value / container / shared-raw-text / configuration families; every 30th case - "
+            '150th in the thorough tier - scales one dimension to a rung of the size ladder of the stress level: long frames under '
+            'shuffled, duplicated or huge integer labels, > 256 columns under a column permutation, many categories, ...), '
+            'each materialized once under the default RangeIndex / given column order and then '
             'under 3 variants drawn from: relabelled index (offset, negative, permuted, string, float, duplicate labels '
-            'by assignment / set_index, all-equal labels, pd.concat of RangeIndex pieces, iloc out of a larger frame), '
+            'by assignment / set_index, all-equal labels, MultiIndex, DatetimeIndex, CategoricalIndex, bool, NaN and > 2^40 labels, '
+            'pd.concat of RangeIndex pieces, iloc out of a larger frame), '
             'permuted DataFrame columns AND independently permuted col_to_stype dict, or both; with / without target '
             '(numerical, 1/2/3+-class categorical, timestamp). Compared: every cell of every variant with the Lean '
             'model, tf == tf_variant through TensorFrame.__eq__ in both directions and cell-wise through the '
@@ -66,11 +71,37 @@ class C02(core.Check):
     def __init__(self):
         self._side = {}
 
+    _replaying = False
+
+    def replay(self, path):
+        self._replaying = True
+        return super().replay(path)
+
+    def skip_model(self):
+        """SKIP_MODEL for the engine; a printable marker while replaying (core.replay json-dumps the model outcome)"""
+        return 'oracle-only case: not shipped to the Lean model' if self._replaying else core.SKIP_MODEL
+
+    def extra_checks(self, rng, tier, report):
+        try:
+            report['extra']['observed_outside_generated_domain'] = [
+                x for x in mg.probe_outside_domain() if 'Categorical' in x['input']]
+        except Exception as e:   # noqa
+            report['extra']['observed_outside_generated_domain'] = [f'probe failed: {type(e).__name__}: {e}']
+
     def generate(self, rng, n, tier):
+        lvl = self.level
+        period = 30 if lvl < 2 else 150
         for k in range(n):
             focus = [None, 'multicategorical', 'embedding', 'text_embedded', 'categorical', 'timestamp'][k % 6]
-            frame = mg.gen_frame(rng, focus=focus)
-            forces = ['relabel', 'colperm', None]
+            if k % period == 5:
+                # one dimension from the size ladder (long frames under shuffled / duplicated labels, > 256 columns under
+                # a column permutation, many categories ...)
+                dims = ['rows', 'cols', 'cats', 'rows', 'cols', 'multicats', 'tokens', 'celllen', 'embwidth', 'seqlen']
+                frame = mg.gen_scaled_frame(rng, lvl, dims[(k // period) % len(dims)], top=k // period < len(dims))
+                forces = ['both'] if mg.frame_items(frame) > 20000 else ['relabel', 'colperm']
+            else:
+                frame = mg.gen_frame(rng, focus=focus, level=lvl)
+                forces = ['relabel', 'colperm', None]
             yield {'frame': frame, 'variants': [gen_variant(rng, frame, f) for f in forces]}
 
     # ------------------------------------------------------------------ real
@@ -101,11 +132,19 @@ class C02(core.Check):
                 eq_rev = bool(ds2.tensor_frame == ds.tensor_frame)
             out['variants'].append({'out': o, 'eq': eq, 'eq_rev': eq_rev,
                                     'stats_equal': mg.canon_stats_full(ds2.col_stats) == full})
+        if not mg.model_feasible(frame):
+            # too large for the list-based Lean model: judged by the oracle right away, only a digest is kept
+            side['verdict'] = self.judge(case, out)
+            side['judged'] = True
+            return {'oracle-only': core.stable_hash(out), 'variants': ['raises' if v == 'raises' else 'ok' for v in out['variants']],
+                    'base': {'ok': {'taskType': base['ok']['taskType'], 'tf': {'names': base['ok']['tf']['names']}}}}
         return out
 
     # ------------------------------------------------------------------ model
     def model_requests(self, case):
         frame = case['frame']
+        if not mg.model_feasible(frame):
+            return []
         side = self._side.get(id(case), {'cats': {}})
         req = {'cmd': 'mat'}
         req.update(mg.model_frame(frame, side['cats']))
@@ -115,6 +154,8 @@ class C02(core.Check):
 
     def model_outcome(self, case, replies):
         frame = case['frame']
+        if not mg.model_feasible(frame):
+            return self.skip_model()
         reps = replies[0]
         base = c01.model_view(reps[0], frame)
         if base == 'raises':
@@ -134,6 +175,12 @@ class C02(core.Check):
 
     # ------------------------------------------------------------------ oracle
     def oracle(self, case, real_outcome):
+        side = self._side.get(id(case), {})
+        if side.get('judged'):
+            return side['verdict']
+        return self.judge(case, real_outcome)
+
+    def judge(self, case, real_outcome):
         frame = case['frame']
         errs = self._side.get(id(case), {}).get('errors', [])
         if real_outcome == 'raises':
@@ -183,20 +230,25 @@ class C02(core.Check):
 
     def classify(self, case, real_outcome):
         frame = case['frame']
-        labs = [f"rows:{frame['n']}", f"cols:{len(frame['cols'])}",
+        labs = [f"rows:{frame['n']}" if frame['n'] <= 12 else 'rows:13+',
+                f"cols:{len(frame['cols'])}" if len(frame['cols']) <= 9 else 'cols:10+',
                 'outcome:' + ('raises' if real_outcome == 'raises' else 'ok')]
+        labs += c01.frame_labels(frame)
         tcol = next((c for c in frame['cols'] if c['name'] == frame['target']), None)
-        labs.append('target:' + (tcol['stype'] if tcol else 'none'))
         if real_outcome != 'raises' and tcol is not None:
             labs.append(f"task:{real_outcome['base']['ok']['taskType']}")
+        if real_outcome != 'raises' and 'oracle-only' in real_outcome:
+            labs.append('judged:oracle-only(too large for the Lean model)')
         if nan_target(frame):
             labs.append('lib-eq-skipped:nan-in-y')
         for v in case['variants']:
             labs.append(f"variant:{v['what']}")
             if v['what'] != 'colperm':
                 labs.append(f"labels:{v['labels']['kind']}/{v['labels']['how']}")
-        for st in {c['stype'] for c in frame['cols']}:
-            labs.append(f'stype:{st}')
+                if frame['n'] >= 257 and v['labels']['kind'] in ('perm', 'dup', 'bigint', 'setindex', 'spread'):
+                    labs.append('scale:rows-with-shuffled-integer-labels')
+            elif len(frame['cols']) >= 257:
+                labs.append('scale:cols-permuted:257+')
         if real_outcome != 'raises':
             names = real_outcome['base']['ok']['tf']['names']
             kinds = {c['name']: c['stype'] for c in frame['cols']}
